@@ -39,6 +39,45 @@ struct sexp_pollfds_t {
 
 #if SEXP_USE_GREEN_THREADS
 
+#if CHIBI_VERIF
+/* verification hook H6: one event per primitive and per scheduler run, with the projected queues */
+extern int sexp_verif_thread_new (sexp thread);
+extern int sexp_verif_obj_id (sexp x);
+static int verif_internal = 0;
+static const char* verif_evkind (sexp ctx, sexp evt) {
+  if (!evt || evt == SEXP_FALSE) return "S";
+  if (sexp_contextp(evt)) return "J";
+  if (sexp_pointerp(evt) && sexp_mutexp(ctx, evt)) return "M";
+  if (sexp_fixnump(evt) || sexp_portp(evt)) return "F";
+  return "C";
+}
+static int verif_evid (sexp ctx, sexp evt) {
+  if (!evt || evt == SEXP_FALSE) return -1;
+  if (sexp_contextp(evt)) return sexp_verif_thread_id(evt);
+  if (sexp_fixnump(evt)) return (int)sexp_unbox_fixnum(evt);
+  return sexp_verif_obj_id(evt);
+}
+static void verif_thread_state (sexp ctx, char *buf, size_t len) {
+  size_t o = 0; sexp ls; int first, guard;
+  o += snprintf(buf+o, len-o, "\"rq\":[");
+  for (first=1, guard=0, ls=sexp_global(ctx, SEXP_G_THREADS_FRONT); sexp_pairp(ls) && o + 64 < len && guard < 200; ls=sexp_cdr(ls), first=0, guard++)
+    o += snprintf(buf+o, len-o, "%s[%d,%d,%d,%d]", first ? "" : ",", sexp_verif_thread_id(sexp_car(ls)),
+                  (int)sexp_context_waitp(sexp_car(ls)), (int)sexp_context_timeoutp(sexp_car(ls)), sexp_context_refuel(sexp_car(ls)) > 0);
+  o += snprintf(buf+o, len-o, "],\"back\":%d,\"pz\":[",
+                sexp_pairp(sexp_global(ctx, SEXP_G_THREADS_BACK)) ? sexp_verif_thread_id(sexp_car(sexp_global(ctx, SEXP_G_THREADS_BACK))) : -1);
+  for (first=1, guard=0, ls=sexp_global(ctx, SEXP_G_THREADS_PAUSED); sexp_pairp(ls) && o + 96 < len && guard < 200; ls=sexp_cdr(ls), first=0, guard++)
+    o += snprintf(buf+o, len-o, "%s[%d,%d,%d,%d,\"%s\",%d,%d]", first ? "" : ",", sexp_verif_thread_id(sexp_car(ls)),
+                  (int)sexp_context_waitp(sexp_car(ls)), (int)sexp_context_timeoutp(sexp_car(ls)), sexp_context_refuel(sexp_car(ls)) > 0,
+                  verif_evkind(ctx, sexp_context_event(sexp_car(ls))), verif_evid(ctx, sexp_context_event(sexp_car(ls))),
+                  (sexp_context_timeval(sexp_car(ls)).tv_sec != 0 || sexp_context_timeval(sexp_car(ls)).tv_usec != 0));
+  o += snprintf(buf+o, len-o, "],\"cw\":[%d,%d,%d]", (int)sexp_context_waitp(ctx), (int)sexp_context_timeoutp(ctx), sexp_context_refuel(ctx) > 0);
+}
+#define VERIF_EV(ctx, ...) do { if (sexp_verif_tracing() && !verif_internal) { char vbuf_[4096], vst_[3072]; \
+    verif_thread_state(ctx, vst_, sizeof(vst_)); snprintf(vbuf_, sizeof(vbuf_), __VA_ARGS__); \
+    sexp_verif_emit("%s,\"t\":%d,%s", vbuf_, sexp_verif_thread_id(ctx), vst_); } } while (0)
+static int verif_timedp (sexp timeout) { return (timeout && (sexp_realp(timeout) || sexp_contextp(timeout))) ? 1 : 0; }
+#endif
+
 static void sexp_define_type_predicate_by_tag (sexp ctx, sexp env, const char *cname, sexp_uint_t type) {
   sexp_gc_var2(name, op);
   sexp_gc_preserve2(ctx, name, op);
@@ -105,6 +144,9 @@ sexp sexp_make_thread (sexp ctx, sexp self, sexp_sint_t n, sexp thunk, sexp name
   /*   if (sexp_caar(ls1) != sexp_global(ctx, SEXP_G_ERR_HANDLER)) */
   /*     ls2 = sexp_cons(ctx, sexp_car(ls1), ls2); */
   /* sexp_context_params(res) = ls2; */
+#if CHIBI_VERIF
+  if (sexp_verif_tracing()) { sexp_verif_thread_id(ctx); sexp_verif_emit("\"e\":\"MakeThread\",\"t\":%d,\"u\":%d", sexp_verif_thread_id(ctx), sexp_verif_thread_new(res)); }
+#endif
   sexp_gc_release1(ctx);
   return res;
 }
@@ -120,6 +162,9 @@ sexp sexp_thread_start (sexp ctx, sexp self, sexp_sint_t n, sexp thread) {
   } else {            /* init queue */
     sexp_global(ctx, SEXP_G_THREADS_BACK) = sexp_global(ctx, SEXP_G_THREADS_FRONT) = cell;
   }
+#if CHIBI_VERIF
+  VERIF_EV(ctx, "\"e\":\"Start\",\"u\":%d", sexp_verif_thread_id(thread));
+#endif
   return thread;
 }
 
@@ -140,6 +185,10 @@ sexp sexp_thread_terminate (sexp ctx, sexp self, sexp_sint_t n, sexp thread) {
   sexp res = sexp_make_boolean(ctx == thread);
   sexp_assert_type(ctx, sexp_contextp, SEXP_CONTEXT, thread);
   /* terminate the thread and all children */
+#if CHIBI_VERIF
+  sexp verif_target = thread;
+  verif_internal++;
+#endif
   for ( ; thread && sexp_contextp(thread); thread=sexp_context_child(thread)) {
     /* if not already terminated set an exception status */
     if (sexp_context_refuel(ctx) > 0) {
@@ -153,6 +202,10 @@ sexp sexp_thread_terminate (sexp ctx, sexp self, sexp_sint_t n, sexp thread) {
     if (sexp_delete_list(ctx, SEXP_G_THREADS_PAUSED, thread))
       sexp_thread_start(ctx, self, 1, thread);
   }
+#if CHIBI_VERIF
+  verif_internal--;
+  VERIF_EV(ctx, "\"e\":\"Terminate\",\"u\":%d,\"self\":%d", sexp_verif_thread_id(verif_target), res == SEXP_TRUE);
+#endif
   /* return true if terminating self, then we can yield */
   return res;
 }
@@ -211,12 +264,18 @@ static void sexp_insert_timed (sexp ctx, sexp thread, sexp timeout) {
 sexp sexp_thread_join (sexp ctx, sexp self, sexp_sint_t n, sexp thread, sexp timeout) {
   sexp_assert_type(ctx, sexp_contextp, SEXP_CONTEXT, thread);
   if (sexp_context_refuel(thread) <= 0) /* return true if already terminated */ {
+#if CHIBI_VERIF
+    VERIF_EV(ctx, "\"e\":\"Join\",\"u\":%d,\"res\":1,\"timed\":%d", sexp_verif_thread_id(thread), verif_timedp(timeout));
+#endif
     return SEXP_TRUE;
   }
   sexp_context_timeoutp(ctx) = 0;
   sexp_context_waitp(ctx) = 1;
   sexp_context_event(ctx) = thread;
   sexp_insert_timed(ctx, ctx, timeout);
+#if CHIBI_VERIF
+  VERIF_EV(ctx, "\"e\":\"Join\",\"u\":%d,\"res\":0,\"timed\":%d", sexp_verif_thread_id(thread), verif_timedp(timeout));
+#endif
   return SEXP_FALSE;
 }
 
@@ -227,6 +286,9 @@ sexp sexp_thread_sleep (sexp ctx, sexp self, sexp_sint_t n, sexp timeout) {
     sexp_context_event(ctx) = SEXP_FALSE;
     sexp_insert_timed(ctx, ctx, timeout);
   }
+#if CHIBI_VERIF
+  VERIF_EV(ctx, "\"e\":\"Sleep\",\"timed\":%d", timeout != SEXP_TRUE);
+#endif
   return SEXP_FALSE;
 }
 
@@ -251,17 +313,26 @@ sexp sexp_mutex_lock (sexp ctx, sexp self, sexp_sint_t n, sexp mutex, sexp timeo
   if (sexp_not(sexp_mutex_lockp(mutex))) {
     sexp_mutex_lockp(mutex) = SEXP_TRUE;
     sexp_mutex_thread(mutex) = thread;
+#if CHIBI_VERIF
+    VERIF_EV(ctx, "\"e\":\"Lock\",\"m\":%d,\"res\":1,\"timed\":%d", sexp_verif_obj_id(mutex), verif_timedp(timeout));
+#endif
     return SEXP_TRUE;
   } else {
     sexp_context_waitp(ctx) = 1;
     sexp_context_event(ctx) = mutex;
     sexp_insert_timed(ctx, ctx, timeout);
+#if CHIBI_VERIF
+    VERIF_EV(ctx, "\"e\":\"Lock\",\"m\":%d,\"res\":0,\"timed\":%d", sexp_verif_obj_id(mutex), verif_timedp(timeout));
+#endif
     return SEXP_FALSE;
   }
 }
 
 sexp sexp_mutex_unlock (sexp ctx, sexp self, sexp_sint_t n, sexp mutex, sexp condvar, sexp timeout) {
   sexp ls1, ls2;
+#if CHIBI_VERIF
+  int verif_woke = -1, verif_was = sexp_truep(sexp_mutex_lockp(mutex));
+#endif
   /* first unlock and unblock threads */
   if (sexp_truep(sexp_mutex_lockp(mutex))) {
     sexp_mutex_lockp(mutex) = SEXP_FALSE;
@@ -280,6 +351,9 @@ sexp sexp_mutex_unlock (sexp ctx, sexp self, sexp_sint_t n, sexp mutex, sexp con
           sexp_global(ctx, SEXP_G_THREADS_BACK) = ls2;
         sexp_context_waitp(sexp_car(ls2))
           = sexp_context_timeoutp(sexp_car(ls2)) = 0;
+#if CHIBI_VERIF
+        verif_woke = sexp_verif_thread_id(sexp_car(ls2));
+#endif
         break;
       }
   }
@@ -288,8 +362,14 @@ sexp sexp_mutex_unlock (sexp ctx, sexp self, sexp_sint_t n, sexp mutex, sexp con
     sexp_context_waitp(ctx) = 1;
     sexp_context_event(ctx) = condvar;
     sexp_insert_timed(ctx, ctx, timeout);
+#if CHIBI_VERIF
+    VERIF_EV(ctx, "\"e\":\"Unlock\",\"m\":%d,\"was\":%d,\"cv\":%d,\"woke\":%d,\"timed\":%d", sexp_verif_obj_id(mutex), verif_was, sexp_verif_obj_id(condvar), verif_woke, verif_timedp(timeout));
+#endif
     return SEXP_FALSE;
   }
+#if CHIBI_VERIF
+  VERIF_EV(ctx, "\"e\":\"Unlock\",\"m\":%d,\"was\":%d,\"cv\":-1,\"woke\":%d,\"timed\":0", sexp_verif_obj_id(mutex), verif_was, verif_woke);
+#endif
   return SEXP_TRUE;
 }
 
@@ -308,15 +388,32 @@ sexp sexp_condition_variable_signal (sexp ctx, sexp self, sexp_sint_t n, sexp co
       if (! sexp_pairp(sexp_cdr(ls2)))
         sexp_global(ctx, SEXP_G_THREADS_BACK) = ls2;
       sexp_context_waitp(sexp_car(ls2)) = sexp_context_timeoutp(sexp_car(ls2)) = 0;
+#if CHIBI_VERIF
+      VERIF_EV(ctx, "\"e\":\"Signal\",\"cv\":%d,\"woke\":%d", sexp_verif_obj_id(condvar), sexp_verif_thread_id(sexp_car(ls2)));
+#endif
       return SEXP_TRUE;
     }
+#if CHIBI_VERIF
+  VERIF_EV(ctx, "\"e\":\"Signal\",\"cv\":%d,\"woke\":-1", sexp_verif_obj_id(condvar));
+#endif
   return SEXP_FALSE;
 }
 
 sexp sexp_condition_variable_broadcast (sexp ctx, sexp self, sexp_sint_t n, sexp condvar) {
   sexp res = SEXP_FALSE;
+#if CHIBI_VERIF
+  int verif_count = 0;
+  verif_internal++;
+#endif
   while (sexp_truep(sexp_condition_variable_signal(ctx, self, n, condvar)))
+#if CHIBI_VERIF
+    verif_count++,
+#endif
     res = SEXP_TRUE;
+#if CHIBI_VERIF
+  verif_internal--;
+  VERIF_EV(ctx, "\"e\":\"Broadcast\",\"cv\":%d,\"count\":%d", sexp_verif_obj_id(condvar), verif_count);
+#endif
   return res;
 }
 
@@ -423,6 +520,9 @@ sexp sexp_scheduler (sexp ctx, sexp self, sexp_sint_t n, sexp root_thread) {
   struct pollfd *pfds;
   suseconds_t usecs = 0;
   sexp res, ls1, ls2, evt, runner, paused, front, pollfds;
+#if CHIBI_VERIF
+  int verif_ntimed = 0, verif_selftimed = 0;
+#endif
   sexp_gc_var1(tmp);
   sexp_gc_preserve1(ctx, tmp);
 
@@ -536,6 +636,9 @@ sexp sexp_scheduler (sexp ctx, sexp self, sexp_sint_t n, sexp root_thread) {
       while (sexp_pairp(ls2) && sexp_context_before(sexp_car(ls2), tval)) {
         sexp_context_timeoutp(sexp_car(ls2)) = 1;
         sexp_context_waitp(sexp_car(ls2)) = 0;
+#if CHIBI_VERIF
+        verif_ntimed++;
+#endif
         ls1 = ls2;
         ls2 = sexp_cdr(ls2);
       }
@@ -623,12 +726,19 @@ sexp sexp_scheduler (sexp ctx, sexp self, sexp_sint_t n, sexp root_thread) {
       } else {
         sexp_context_waitp(res) = 0;
         sexp_context_timeoutp(res) = 1;
+#if CHIBI_VERIF
+        verif_selftimed = 1;
+#endif
       }
     }
     /* take a nap to avoid busy looping */
     usleep(usecs);
   }
 
+#if CHIBI_VERIF
+  VERIF_EV(ctx, "\"e\":\"Sched\",\"res\":%d,\"rw\":[%d,%d,%d],\"ntimed\":%d,\"selftimed\":%d", sexp_verif_thread_id(res),
+           (int)sexp_context_waitp(res), (int)sexp_context_timeoutp(res), sexp_context_refuel(res) > 0, verif_ntimed, verif_selftimed);
+#endif
   sexp_gc_release1(ctx);
   return res;
 }
